@@ -658,19 +658,24 @@ def sessions(rng, quick):
                     _interleave(rng, hs)))
     # every option combination through Datastore, in changing order (one store after another
     # in one process: whatever outlives a store is met by the next one)
-    order = [OPTION_SETS[i] for i in (0, 1, 2, 1, 0, 2, 1, 1, 0)]
     names = [n for n in API_CORPUS if n in corpus]
     if len(names) < len(API_CORPUS) - 2:
         raise RuntimeError("c06_gen.corpus() no longer has the histories the API stream selects")
+    key = ("ack", "threshold-mixed-51", "bucket-ops", "reads", "eager")
     k = 0
-    for name in ["ack"] + names:
-        h = h_ack if name == "ack" else corpus[name]
-        reps = 3 if quick else 9
-        for _ in range(reps):
-            on, opts = order[k % len(order)]
+    for rep in range(1 if quick else 3):
+        for name in ["ack"] + names:
+            h = h_ack if name == "ack" else corpus[name]
+            if name in key:
+                which = [(k + j) % 3 for j in range(3)] if k % 2 else [(k - j) % 3 for j in range(3)]
+            else:
+                which = [1, 0 if k % 2 else 2] if k % 4 < 2 else [2 if k % 2 else 0, 1]
             k += 1
-            out.append((f"api:{on}:{name}", [store_desc("datastore", opts)], _single(h)))
-    n_random = 12 if quick else 300
+            for w in which:
+                on, opts = OPTION_SETS[w]
+                out.append((f"api:{on}:{name}", [store_desc("datastore", opts)], _single(h)))
+    order = [OPTION_SETS[i] for i in (0, 1, 2, 1, 0, 2, 1, 1, 0)]
+    n_random = 9 if quick else 300
     for i in range(n_random):
         on, opts = order[(k + i) % len(order)]
         p = profiles[i % 4]
@@ -859,6 +864,106 @@ def kill_cases(rng, quick, n_big):
 
 
 # ---------------------------------------------------------------------------
+# source-level tie of Model/CommitOpen.v (ds_forward = identity, storage_lazy's default)
+
+
+def option_path_problems(repo):
+    """The path an option takes from Datastore(...) to conditional_commit's test, re-read from
+    the source on every run (fail closed: anything not recognised is a problem).
+    Datastore.__init__ must build the storage with exactly `storage_strategy(testing=testing,
+    **kwargs)`, kwargs being its own ** parameter, otherwise untouched, and no other method
+    may assign self.storage_strategy; SqliteStorage.__init__ must take enable_lazy_commit with
+    default True, never rebind it, and the class must assign self.enable_lazy_commit exactly
+    once, from that parameter; the registered "sqlite" method must be that class."""
+    import ast
+    bad = []
+
+    def cls(path, name):
+        tree = ast.parse(open(os.path.join(repo, path)).read())
+        for n in tree.body:
+            if isinstance(n, ast.ClassDef) and n.name == name:
+                return n
+        raise LookupError(f"class {name} not found in {path}")
+
+    def method(c, name):
+        for n in c.body:
+            if isinstance(n, ast.FunctionDef) and n.name == name:
+                return n
+        raise LookupError(f"{c.name}.{name} not found")
+
+    def self_attr_stores(node, attr):
+        out = []
+        for n in ast.walk(node):
+            if isinstance(n, (ast.Assign, ast.AnnAssign, ast.AugAssign)):
+                tgts = n.targets if isinstance(n, ast.Assign) else [n.target]
+                for t in tgts:
+                    for x in ast.walk(t):
+                        if isinstance(x, ast.Attribute) and x.attr == attr and isinstance(x.value, ast.Name) and x.value.id == "self":
+                            out.append(n)
+            elif isinstance(n, ast.Call) and isinstance(n.func, ast.Name) and n.func.id in ("setattr", "delattr") and \
+                    len(n.args) >= 2 and isinstance(n.args[1], ast.Constant) and n.args[1].value == attr:
+                out.append(n)
+        return out
+    try:
+        ds = cls("aw_datastore/datastore.py", "Datastore")
+        init = method(ds, "__init__")
+        kw = init.args.kwarg.arg if init.args.kwarg else None
+        if kw is None:
+            bad.append("Datastore.__init__ no longer takes **kwargs")
+        uses = [n for n in ast.walk(init) if isinstance(n, ast.Name) and n.id == kw]
+        calls = [n for n in ast.walk(init) if isinstance(n, ast.Call) and isinstance(n.func, ast.Name)
+                 and n.func.id == "storage_strategy"]
+        if len(calls) != 1:
+            bad.append(f"Datastore.__init__ calls storage_strategy {len(calls)} times")
+        else:
+            c = calls[0]
+            shape = [(k.arg, ast.unparse(k.value)) for k in c.keywords]
+            if c.args or shape != [("testing", "testing"), (None, kw)]:
+                bad.append("Datastore.__init__ builds the storage with " + ast.unparse(c)
+                           + f", not storage_strategy(testing=testing, **{kw})")
+        if kw and len(uses) != 1:
+            bad.append(f"Datastore.__init__ uses its **{kw} {len(uses)} times (forwarded once, untouched, is the model)")
+        for n in ast.walk(init):
+            if isinstance(n, ast.Name) and n.id in ("testing", "storage_strategy") and isinstance(n.ctx, ast.Store):
+                bad.append(f"Datastore.__init__ rebinds {n.id}")
+        stores = self_attr_stores(ds, "storage_strategy")
+        if len(stores) != 1 or not (isinstance(stores[0], ast.Assign) and calls and stores[0].value is calls[0]):
+            bad.append(f"self.storage_strategy is assigned {len(stores)} times in Datastore (once, the call's result, is the model)")
+        st = cls("aw_datastore/storages/sqlite.py", "SqliteStorage")
+        sinit = method(st, "__init__")
+        a = sinit.args
+        names = [x.arg for x in a.args]
+        if a.vararg or a.kwarg or a.kwonlyargs or "enable_lazy_commit" not in names:
+            bad.append("SqliteStorage.__init__ parameters: " + ast.unparse(a))
+        else:
+            d = dict(zip(names[len(names) - len(a.defaults):], a.defaults))
+            dv = d.get("enable_lazy_commit")
+            if not (isinstance(dv, ast.Constant) and dv.value is True):
+                bad.append("default of enable_lazy_commit is " + (ast.unparse(dv) if dv is not None else "missing") + ", not True")
+        for n in ast.walk(sinit):
+            if isinstance(n, ast.Name) and n.id == "enable_lazy_commit" and isinstance(n.ctx, ast.Store):
+                bad.append("SqliteStorage.__init__ rebinds enable_lazy_commit")
+        stores = self_attr_stores(st, "enable_lazy_commit")
+        if len(stores) != 1 or not (isinstance(stores[0], ast.Assign) and isinstance(stores[0].value, ast.Name)
+                                    and stores[0].value.id == "enable_lazy_commit" and stores[0] in sinit.body):
+            bad.append("self.enable_lazy_commit is not assigned exactly once, in __init__, from the parameter: "
+                       + "; ".join(ast.unparse(x) for x in stores))
+        for n in ast.walk(st):
+            if isinstance(n, ast.Attribute) and n.attr == "enable_lazy_commit" and not (isinstance(n.value, ast.Name) and n.value.id == "self"):
+                bad.append("enable_lazy_commit reached other than through self: " + ast.unparse(n))
+    except (LookupError, SyntaxError, OSError) as ex:
+        bad.append(f"{type(ex).__name__}: {ex}")
+    try:
+        import aw_datastore
+        from aw_datastore.storages import SqliteStorage
+        if aw_datastore.get_storage_methods().get("sqlite") is not SqliteStorage:
+            bad.append('get_storage_methods()["sqlite"] is not aw_datastore.storages.SqliteStorage')
+    except Exception as ex:
+        bad.append(f"get_storage_methods: {type(ex).__name__}: {ex}")
+    return bad
+
+
+# ---------------------------------------------------------------------------
 # entry point of the check
 
 
@@ -887,6 +992,11 @@ def run(ck, sq, Event, quick, have_driver):
 
 
 def _run(ck, sq, Event, quick, have_driver):
+    if hasattr(ck, "prove"):
+        # the eager clause and the options (Model/CommitOpen.v, Props/C06Eager.v), and their source-level tie
+        ck.prove(props_file="Props/C06Eager.v")
+    for b in option_path_problems(common.REPO):
+        ck.disagreement("option-path", "tie of Model/CommitOpen.v to the source: " + b, {"check": "harness.c06_api.option_path_problems"})
     rng = random.Random(ck.seed * 7919 + 17)
     seen = ck.__dict__.setdefault("_reported_signatures", set())
     todo = [(name, stores, h) for name, stores, h in sessions(rng, quick)]
@@ -949,10 +1059,13 @@ def _run(ck, sq, Event, quick, have_driver):
             for b in compare_api_model(r, out[i_trace], [out[i] for i in i_scripts], r.at)[:3]:
                 ck.disagreement("api-commit-model", f"{r.name} (model run with lazy := {r.lazy}, the options' promise): {b}",
                                 replay_obj(se, {"disagreement": b}))
-    # real crashes
+    # real crashes (children in parallel: each is its own process on its own files)
     t = time.time()
-    for case in kill_cases(rng, quick, BIG_N):
-        res = kill_run(case)
+    from concurrent.futures import ThreadPoolExecutor
+    cases = kill_cases(rng, quick, BIG_N)
+    with ThreadPoolExecutor(max_workers=4) as ex:
+        results = list(ex.map(kill_run, cases))
+    for case, res in zip(cases, results):
         ck.evaluations += 1
         ck.count("api:sigkill:" + ("lazy" if promised_lazy(case["store"]["opts"]) else "eager") + "-promised:" + case["kill"][0])
         ck.count("api:sigkill:statements-logged", res["logged"])
